@@ -119,8 +119,12 @@ def param2ast(param):
             simple=1,
             target=Name(name, Store()),
             value=set_value(
-                quote(_param["default"])
-                if _param.get("default")
+                (
+                    quote(_param["default"])
+                    if isinstance(_param["default"], str)
+                    else _param["default"]
+                )
+                if _param.get("default") is not None
                 else simple_types.get(_param["typ"])
             ),
             expr=None,
